@@ -551,7 +551,8 @@ def _check_decimal(
     splitted = decimals.astype("string").str.split(".", n=1, expand=True)  # type: ignore
     if splitted.shape[1] < 2:
         splitted[1] = ""
-    len_left = splitted[0].str.len().fillna(0)
+    # the sign is not a digit
+    len_left = splitted[0].str.lstrip("+-").str.len().fillna(0)
     len_right = splitted[1].str.len().fillna(0)
     precisions = len_left + len_right
 
